@@ -88,7 +88,7 @@ def base_system(b, rng):
     if b['om'] == 'gaussian' and b['rank'] == 1:
         t = c['types'][0]
         c['omega']['%s-%s' % (t, t)] = ['Gaussian', 1.0, int(rng.choice([4, 6, 10]))]
-    c['assign'] = str(rng.choice(['pair', 'setunset', 'group']))      # the idioms users fill the tables with
+    c['assign'] = str(rng.choice(['pair', 'setunset', 'group', 'edit']))      # the idioms users fill the tables with
     c['diam_idiom'] = str(rng.choice(['direct', 'sweep']))
     c['num_style'] = str(rng.choice(['float', 'np', 'int']))
     c['reuse'] = bool(rng.random() < 0.3)
